@@ -7,6 +7,10 @@ BASELINE_OFF = ("cd /repo && cargo nextest run --workspace --no-fail-fast --test
 
 # id -> (level, technique, design_ref, text, note)
 CHECKS = {
+ "C10": ("exploration", "bounded exhaustive enumeration (deviation bound 2) of form shapes, file contents and policies plus every single-character mutation of the authentication fields, against a reference form verifier, on the real S3Service::call",
+         "DESIGN §4 C10",
+         "A policy-signed base form with 0, 1 and 2 simultaneous deviations over ~300 axes (incl. every single byte value as file content, CR/LF runs, proper prefixes of the delimiter, 3 boundaries, 19 policies on both sides of the owned clock and of every condition) and every single-character mutation / removal / emptying of policy, signature, credential, date and algorithm. Acceptance is judged by a reference verifier (HMAC, expiry, each condition); an accepted upload is compared field-wise and byte-wise with the form.",
+         "clock owned through the verif-hooks seam; forms arrive in one frame (framing is C09); repeated fields and unknown condition operators are not judged"),
  "C09": ("model_checking", "stateless exhaustive exploration of transport schedules (frame partitions, empty frames, Pending/wake) with a deviation bound, directly on the real S3Service::call; differential oracle plus lost-wake-up detection under a virtual clock",
          "DESIGN §4 C09, §2 E2",
          "For each of the four body kinds every schedule with at most k deviations from the default (k=2 quick, 3 thorough; a deviation is a cut point, an empty frame or a Pending-then-wake before any frame or before end-of-stream) is executed to completion on the implementation and compared with the single-frame run; a schedule that leaves the request Pending with no wake-up is detected deterministically through tokio's paused clock. Schedules are executions of the real code, so no model-code gap exists.",
